@@ -3,7 +3,8 @@
 From Coq Require Import List NArith String Bool.
 From V Require Import Base.Util Base.Strings Base.Result Model.Registry Model.Settings Model.Subst
   Model.TypePath Model.Derives Model.Generate Model.Emit Model.Equal Model.ExamplesTG
-  Checkers.Parse Checkers.Sem Model.Unparse Proofs.ParseTy Proofs.ParseItem Proofs.ParseMod.
+  Checkers.Parse Checkers.Sem Model.Unparse Model.UnparseClosed Model.Shape Proofs.ShapeBool
+  Proofs.ParseTy Proofs.ParseItem Proofs.ParseMod Proofs.ParseClosed.
 Import ListNotations.
 Open Scope string_scope. Open Scope list_scope.
 
@@ -140,4 +141,26 @@ Proof.
   unfold parse_one_item.
   pose proof (item_parses ex_set ir toks H Hp (S (List.length toks)) [] (le_n _) (fun _ _ => eq_refl)) as HP.
   rewrite app_nil_r in HP. rewrite HP. reflexivity.
+Qed.
+
+(** the hypotheses of [C02_closedb_emitted] are satisfiable: the chain on [ex_reg1] *)
+Example ex_closedb_emitted :
+  exists m toks pm,
+    generate ex_reg1 ex_set (types_equal ex_reg1) = Ok m /\ emit_module ex_set m = Ok toks /\
+    parse_module toks = Some pm /\ closedb (s_root ex_set) pm = true.
+Proof.
+  assert (H : exists m toks,
+             generate ex_reg1 ex_set (types_equal ex_reg1) = Ok m /\ emit_module ex_set m = Ok toks /\
+             items_plain ex_set m = true /\ prefix_freeb (map fst m) = true).
+  { eexists. eexists. split; [vm_compute; reflexivity|]. split; [vm_compute; reflexivity|].
+    split; vm_compute; reflexivity. }
+  destruct H as (m & toks & G & E & P & F). exists m, toks.
+  destruct (emitted_closed ex_reg1 ex_set (types_equal ex_reg1) m toks) as (pm & HP & HC);
+    try assumption.
+  - split; [discriminate|]. split; [discriminate|]. intros k sub [].
+  - reflexivity.
+  - split; [intros c Hc; inversion Hc; reflexivity|intros b Hb; discriminate Hb].
+  - apply skeleton_consistentb_sound. vm_compute. reflexivity.
+  - apply prefix_freeb_sound. exact F.
+  - exists pm. repeat split; assumption.
 Qed.
